@@ -752,7 +752,12 @@ class SqlalchemyRender:
 
             sql_query = str(ast_query)
             if self.dialect.name == 'postgresql':
-                sql_query = sql_query.replace('`', '')
+                # remove identifier quotes, keep string literals as they are
+                sql_query = re.sub(
+                    r"""'(?:[^'\\]|\\.|'')*'|`""",
+                    lambda m: '' if m.group(0) == '`' else m.group(0),
+                    sql_query
+                )
             return sql_query, None
 
 
